@@ -85,3 +85,64 @@ Section SafetySteps.
     apply (state_machine_safety c0 c1 Hcfg x' (xsteps_reachable x x' Hx Hs) a b i); lia.
   Qed.
 End SafetySteps.
+
+(* ------------------------------------------------------------------ election safety over time *)
+Section ElectionForever.
+  Variables c0 c1 : list nat.
+  Hypothesis Hcfg : c0 <> [] \/ c1 <> [].
+
+  (* the recorded winner of a term never changes *)
+  Lemma lof_stable_step : forall s s', Inv c0 c1 s -> mstep c0 c1 s s' ->
+    forall t l, lof s t = Some l -> lof s' t = Some l.
+  Proof.
+    intros s s' I H t l Hl. destruct H; try exact Hl.
+    - (* win *)
+      cbn [set_leader_log set_node lof]. destruct (Nat.eq_dec t (n_term (nodes s id))) as [->|Ht];
+        [|rewrite upd_other by exact Ht; exact Hl].
+      rewrite upd_same. f_equal.
+      assert (Hq : Qr c0 c1 (votedp s (n_term (nodes s id)) id)).
+      { unfold tally in H0. apply (proj1 (joint_vote_result_spec c0 c1 _)) in H0.
+        eapply Qr_mono; [|exact H0]. intros x Hx. unfold granted in Hx. unfold votedp. apply opt_nat_eqb_eq.
+        apply (hA5 _ _ _ I id x H). unfold nd. destruct (n_votes (nodes s id) x) as [[|]|]; try discriminate. reflexivity. }
+      pose proof (hA6a _ _ _ I _ l Hl) as Hq2.
+      destruct (Qr_inter c0 c1 Hcfg _ _ Hq Hq2) as (v & Hv1 & Hv2). unfold votedp in *.
+      apply opt_nat_eqb_eq in Hv1. apply opt_nat_eqb_eq in Hv2. congruence.
+    - (* propose *)
+      cbn [set_leader_log set_node lof]. destruct (Nat.eq_dec t (n_term (nodes s id))) as [->|Ht];
+        [|rewrite upd_other by exact Ht; exact Hl].
+      rewrite upd_same. pose proof (hA6b _ _ _ I id H) as Hb. unfold nd in Hb. congruence.
+  Qed.
+
+  Lemma lof_stable : forall s s', mreachable c0 c1 s -> msteps c0 c1 s s' ->
+    forall t l, lof s t = Some l -> lof s' t = Some l.
+  Proof.
+    intros s s' Hr H. induction H as [|s1 s2 H1 IH Hs]; intros t l Hl; [exact Hl|].
+    apply (lof_stable_step s1 s2); [|exact Hs|apply IH; exact Hl].
+    apply (mreachable_inv c0 c1 Hcfg). eapply msteps_reachable; eassumption.
+  Qed.
+
+  Lemma xsteps_sim : forall s x x', xsim s x -> xsteps c0 c1 x x' ->
+    exists s', msteps c0 c1 s s' /\ xsim s' x'.
+  Proof.
+    intros s x x' Hs H. induction H as [|x1 x2 _ [s1 [H1 Hs1]] Hx]; [exists s; split; [apply MS_refl|exact Hs]|].
+    destruct (xstep_sim c0 c1 s1 x1 x2 Hs1 Hx) as (s2 & H2 & Hs2). exists s2.
+    split; [eapply msteps_trans; eassumption|exact Hs2].
+  Qed.
+
+  (* at most one node is ever leader of a given term: not only simultaneously, but over the
+     whole run, across crashes and restarts *)
+  Theorem election_safety_forever : forall x x', xreachable c0 c1 x -> xsteps c0 c1 x x' ->
+    forall a b, n_role (x_nodes x a) = Leader -> n_role (x_nodes x' b) = Leader ->
+      n_term (x_nodes x a) = n_term (x_nodes x' b) -> a = b.
+  Proof.
+    intros x x' Hx Hsteps a b Ha Hb Ht.
+    destruct (xreachable_sim c0 c1 x Hx) as (s & Hr & Hs).
+    destruct (xsteps_sim s x x' Hs Hsteps) as (s' & Hms & Hs').
+    pose proof (mreachable_inv c0 c1 Hcfg s Hr) as I.
+    pose proof (mreachable_inv c0 c1 Hcfg s' (msteps_reachable c0 c1 s s' Hr Hms)) as I'.
+    destruct Hs as [Hn _]. destruct Hs' as [Hn' _].
+    rewrite <- (Hn a) in Ha, Ht. rewrite <- (Hn' b) in Hb, Ht.
+    pose proof (hA6b _ _ _ I a Ha) as La. pose proof (hA6b _ _ _ I' b Hb) as Lb. unfold nd in La, Lb.
+    pose proof (lof_stable s s' Hr Hms _ _ La) as La'. rewrite Ht in La'. congruence.
+  Qed.
+End ElectionForever.
